@@ -466,7 +466,62 @@ def one(case, pl):
     bc = case.get("big_chain")
     if bc:
         res["big_chain"] = guarded(lambda: big_chain(bc))
+    bm = case.get("big_model")
+    if bm:
+        res["big_model"] = guarded(lambda: big_model(bm))
     return res
+
+
+def big_model_row(spec, s, a, fp, fq):
+    """next-state items of the structured large model (same formula as harness/c06.py:big_model_row)"""
+    S, kind = spec["S"], spec["kind"]
+    if kind == "corridor":
+        if s == S - 1:
+            return [(s, 1.0)]
+        return [(min(s + a + 1, S - 1), fp[a]), (s, fq[a])]
+    if kind == "ring":
+        return [((s + a + 1) % S, fp[a]), (s, fq[a])]
+    t, u = (s * spec["mult"][a] + spec["off"][a]) % S, (s + a + 1) % S
+    return [(t, 1.0)] if t == u else [(t, fp[a]), (u, fq[a])]
+
+
+def big_model(spec):
+    """a structured MDP with |S|^2 |A| above 2^22 / 2^24: the dense arrays, reported sparsely"""
+    import numpy as np
+    from msdm.core.mdp.quickmdp import QuickTabularMDP
+    from msdm.core.distributions import DictDistribution
+    S, A = spec["S"], spec["A"]
+    fp, fq, fr = [fl(x) for x in spec["p"]], [fl(x) for x in spec["q"]], [fl(x) for x in spec["r"]]
+    acts_full, acts_less = tuple(range(A)), tuple(range(A - 1))
+    m = QuickTabularMDP(
+        next_state_dist=lambda s, a: DictDistribution(big_model_row(spec, s, a, fp, fq)),
+        reward=lambda s, a, ns: fr[a] if ns != s else 0.0,
+        actions=lambda s: acts_less if (A > 1 and s % 7 == 3) else acts_full,
+        initial_state_dist=DictDistribution({0: fl(spec["init"][0]), 1: fl(spec["init"][1])}),
+        is_absorbing=lambda s: spec["kind"] == "corridor" and s == S - 1,
+        discount_rate=fl(spec["gamma"]))
+    out = {"state_list_ok": list(m.state_list) == list(range(S)), "action_list": [int(a) for a in m.action_list],
+           "reach": len(m.reachable_states())}
+    tf = m.transition_matrix
+    out["shape"] = list(tf.shape)
+    nz = np.nonzero(tf)
+    out["tf_nnz"] = [[int(i), int(j), int(k), fj(tf[i, j, k])] for i, j, k in zip(*nz)]
+    am = m.action_matrix
+    out["am_zero"] = [[int(i), int(j)] for i, j in zip(*np.nonzero(am == 0))]
+    out["am_values"] = sorted(set(float(x) for x in np.unique(am)))
+    rs = tf.sum(-1, dtype=np.float64)
+    out["rowsum_dev"] = fj(float(np.abs(rs[am != 0] - 1).max()))
+    out["unavailable_rows_zero"] = bool((rs[am == 0] == 0).all())
+    rf = m.reward_matrix
+    nzr = np.nonzero(rf)
+    out["rf_nnz"] = [[int(i), int(j), int(k), fj(rf[i, j, k])] for i, j, k in zip(*nzr)]
+    out["sarf"] = [[fj(x) for x in row] for row in m.state_action_reward_matrix]
+    out["s0_nnz"] = [[int(i), fj(m.initial_state_vec[i])] for i in np.nonzero(m.initial_state_vec)[0]]
+    out["abs_true"] = [int(i) for i in np.nonzero(m.absorbing_state_vec)[0]]
+    out["dead_true"] = [int(i) for i in np.nonzero(m.dead_end_state_vec)[0]]
+    out["tt"] = fj(m.transition_table[S // 2][0][big_model_row(spec, S // 2, 0, fp, fq)[0][0]])
+    out["gamma"] = fj(m.discount_rate)
+    return out
 
 
 _GLOBAL_PLANNER = {}
